@@ -4,7 +4,8 @@
 import os
 SHAPES = ["r", "rr", "rv", "rrr", "rrv", "rvr", "rvv"]
 # "env" (env_c_strings) is not registered: measured - still in symbolic execution after 15 min per arm (memchr in
-# str::contains / CString::new on strings whose length depends on symbolic data), even with array formatting cut (T9v)
+# str::contains / CString::new on strings whose length depends on symbolic data), even with array formatting cut (T9v),
+# and again (900 s cap) with both searches stubbed and only the number of entries asserted
 STEPS = ["lookup", "assign", "unset", "pop", "push", "attrs"]
 if os.environ.get("VERIF_C16_ENV"):
     STEPS += ["env"]
